@@ -295,14 +295,18 @@ Definition request_answered (T : tables) (m : mstate) (o : cop) : bool :=
    micro-step into the model actions it amounts to (none for a step without atomic operation). *)
 Record mobs := {
   mo_pending : bool; mo_active : bool; mo_reloading : bool; mo_supp : nat; mo_qlen : nat;
-  mo_code : pcode; mo_msg : msg
+  mo_code : pcode; mo_msg : msg;
+  mo_done : bool;        (* the done channel of the first retirement is closed *)
+  mo_genclosed : bool    (* the Close() of its old generation has returned *)
 }.
 Definition mobs_of (s : state) : mobs :=
-  Build_mobs (pending s) (active s) (reloading s) (supp s) (length (queue s)) (fst (progress s)) (snd (progress s)).
+  Build_mobs (pending s) (active s) (reloading s) (supp s) (length (queue s)) (fst (progress s)) (snd (progress s))
+             (nth 0 (dones s) false) (gen_closed s 0).
 Definition mobs_eqb (a b : mobs) : bool :=
   Bool.eqb (mo_pending a) (mo_pending b) && Bool.eqb (mo_active a) (mo_active b)
   && Bool.eqb (mo_reloading a) (mo_reloading b) && Nat.eqb (mo_supp a) (mo_supp b)
-  && Nat.eqb (mo_qlen a) (mo_qlen b) && pcode_eqb (mo_code a) (mo_code b) && msg_eqb (mo_msg a) (mo_msg b).
+  && Nat.eqb (mo_qlen a) (mo_qlen b) && pcode_eqb (mo_code a) (mo_code b) && msg_eqb (mo_msg a) (mo_msg b)
+  && Bool.eqb (mo_done a) (mo_done b) && Bool.eqb (mo_genclosed a) (mo_genclosed b).
 (* what a refused request must leave alone *)
 Definition core_eqb (a b : mobs) : bool :=
   Bool.eqb (mo_pending a) (mo_pending b) && Bool.eqb (mo_active a) (mo_active b)
@@ -315,8 +319,22 @@ Record micro_case := {
   mc_setup : list action;          (* ASignal for every signal thread *)
   mc_steps : list micro_step;
   mc_results : list (nat * N);     (* signal thread, 1 accepted / 0 refused / 2 not finished *)
-  mc_quiescent : bool              (* every goroutine has finished *)
+  mc_quiescent : bool;             (* every goroutine has finished *)
+  mc_releasers : list nat          (* the goroutines spawned by releaseReloadPendingAfterRetirement *)
 }.
+
+(* "accepts again only once the previous generation has retired", on the implementation's own
+   observations: done is never closed before Close() has returned, and a release goroutine clears
+   reloadPending only when the generation it waited for is closed *)
+Fixpoint retired_first (rel : list nat) (prev : mobs) (steps : list micro_step) (n : N) : list (N * N) :=
+  match steps with
+  | [] => []
+  | st :: rest =>
+      let o := mi_obs st in
+      let bad1 := mo_done o && negb (mo_genclosed o) in
+      let bad2 := existsb (Nat.eqb (mi_thread st)) rel && mo_pending prev && negb (mo_pending o) && negb (mo_genclosed o) in
+      (if bad1 || bad2 then [(n, 7%N)] else []) ++ retired_first rel o rest (n + 1)%N
+  end.
 
 (* impl = model after every micro-step: error code 6 *)
 Fixpoint micro_model (T : tables) (s : state) (steps : list micro_step) (n : N) : list (N * N) :=
@@ -355,7 +373,7 @@ Definition micro_spec (c : micro_case) : list (N * N) :=
   let final := last (map mi_obs (mc_steps c)) o0 in
   let held := if mo_pending final then 1 else 0 in
   let accepted := length (filter (fun tr : nat * N => N.eqb (snd tr) 1) (mc_results c)) in
-  per_thread ++
+  per_thread ++ retired_first (mc_releasers c) o0 (mc_steps c) 0%N ++
   (if mc_quiescent c &&
       negb (Nat.eqb (mo_supp final) held && Nat.eqb (a - r) held && Nat.eqb (accepted - r) held
             && Nat.leb (mo_qlen final) held)
